@@ -2,6 +2,7 @@ import SfntV.Model.NamesCodec
 import SfntV.Model.NamesPost
 import SfntV.Model.NamesTable
 import SfntV.Model.NamesLocale
+import SfntV.Model.NamesChoose
 import SfntV.Spec.Names
 
 namespace SfntV.Drive.Names
@@ -219,6 +220,42 @@ def prefixes : List String := ["names."]
     match getField fs "s", getField fs "l" with
     | some sc, some l => sc ++ "|" ++ l
     | _, _ => "bad-case"
+  else if op == "names.choose" then
+    -- `tt=<keyhex>:<number of names>,…  idx=<the matcher's answer>`
+    let tt : Option (List (List Nat × Nat)) :=
+      match getField fs "tt" with
+      | none => none
+      | some s =>
+        if s.isEmpty then some [] else
+        (s.splitOn ",").mapM fun (t : String) =>
+          match t.splitOn ":" with
+          | [k, n] => do
+            let k ← hexNats k
+            let n ← n.toNat?
+            pure (k, n)
+          | _ => none
+    match tt, (getField fs "idx").bind String.toNat? with
+    | some tt, some idx =>
+      match choose tt idx with
+      | some k => natsHex k
+      | none => "nil"
+    | _, _ => "bad-case"
+  else if op == "names.slspec" then
+    match (getField fs "b").bind hexNats with
+    | some b =>
+      match Spec.scriptListOf b with
+      | some l => ",".intercalate ((l.map fun r =>
+          s!"{natsHex r.script}:{natsHex r.lang}:{r.required}:" ++ ".".intercalate (r.features.map toString)).mergeSort
+            fun a b => decide (a ≤ b))
+      | none => "malformed"
+    | none => "bad-case"
+  else if op == "names.slrt" then
+    -- the property's prediction: every (script, language, features) entry comes back unchanged
+    match getField fs "pairs" with
+    | some s =>
+      if s.isEmpty then "" else
+      ",".intercalate ((s.splitOn ",").mergeSort fun a b => decide (a ≤ b))
+    | none => "bad-case"
   else "bad-op"
 
 def specStd : Array (List Nat) := Spec.standardTable.toArray
